@@ -108,8 +108,16 @@ def gen(seed, idx, tier):
         defect["excess"] = ex
     elif cls == "option":
         name, upd = rnd.choice(OPTION_DEFECTS)
-        scn["options"].update(copy.deepcopy(upd))
         defect["option"] = name
+        phase = rnd.choice(["direct", "direct", "pre", "post"])
+        defect["phase"] = phase
+        if phase == "direct":
+            scn["options"].update(copy.deepcopy(upd))
+        else:
+            # the options object was valid when first validated / when the solver was built and
+            # was changed in place afterwards
+            valid = {k: scn["options"][k] for k in upd if k in scn["options"]}
+            scn["options_late"] = {"phase": phase, "updates": copy.deepcopy(upd), "valid": valid}
     elif cls == "empty-terminal":
         scn["device"]["terminals"][-1]["inside"] = True
         scn["allow_empty_terminal"] = True
@@ -216,7 +224,7 @@ def run(scn):
         h.probe("class:" + d["class"])
         if h.exc:
             h.probe("rejected-by:" + h.exc[0])
-        res = base.summarize(scn, h, Vd, True, (d["class"], d.get("option"), d.get("rel"), d.get("window_frac"), d.get("excess"), d.get("poly"), d.get("dev"), d.get("seed_change"), d.get("shape"), h.outcome.split(":")[0], h.exc[0] if h.exc else None, scn["observer"]["output"] is None))
+        res = base.summarize(scn, h, Vd, True, (d["class"], d.get("option"), d.get("phase"), d.get("rel"), d.get("window_frac"), d.get("excess"), d.get("poly"), d.get("dev"), d.get("seed_change"), d.get("shape"), h.outcome.split(":")[0], h.exc[0] if h.exc else None, scn["observer"]["output"] is None))
         return res
     finally:
         for s in sims:
